@@ -20,6 +20,7 @@ DfsOK(g, c) ==
     /\ NoDup(c.seq) /\ SeqRange(c.seq) = ReachFrom(g, c.s) /\ c.none_again
     /\ NoDup(c.seq2) /\ SeqRange(c.seq2) = ReachFrom(g, c.t) \ SeqRange(c.seq)
     /\ NoDup(c.seq3) /\ SeqRange(c.seq3) = ReachFrom(g, c.t)
+    /\ NoDup(c.seq4) /\ SeqRange(c.seq4) = ReachFrom(g, c.s)       \* foreign map, then reset
 \* DfsPostOrder: a node only after each successor that cannot reach it back
 PostOK(g, seq, s, already) ==
     /\ NoDup(seq) /\ SeqRange(seq) = ReachFrom(g, s) \ already
@@ -28,6 +29,7 @@ PostOK(g, seq, s, already) ==
 DpoOK(g, c) == /\ PostOK(g, c.seq, c.s, {}) /\ c.none_again
                /\ PostOK(g, c.seq2, c.t, SeqRange(c.seq))
                /\ PostOK(g, c.seq3, c.t, {})
+               /\ PostOK(g, c.seq4, c.s, {})
 \* Bfs: reachable nodes each once, in non-decreasing hop distance
 BfsOK(g, c) ==
     LET d == Dist(Unit(g), c.s) IN
